@@ -323,10 +323,10 @@ def main():
                    "Python subset (list membership/index/remove by value, a for statement iterates a snapshot and is refused when its "
                    "body may change the iterated list, short-circuit and/or/all, exceptions keep earlier changes, writes to policy_map "
                    "dropped); PolicyTie.v proves that the regenerated has_policy / add_policy / add_policies (no priority column) / "
-                   "remove_policy / remove_policies / update_policy / remove_filtered_policy compute Policy.v's functions for every "
-                   "rule list and argument; update_policies, get_filtered_policy, the *_returns_effects / *_with_effected forms, "
-                   "get_values_for_field_in_policy and the priority insertion of add_policy are translated but tied by the "
-                   "differential correspondence only"]
+                   "remove_policy / remove_policies / update_policy / update_policies / get_filtered_policy / remove_filtered_policy / "
+                   "remove_filtered_policy_returns_effects / get_values_for_field_in_policy compute Policy.v's functions for every "
+                   "rule list and argument; remove_policies_with_effected and the priority insertion of add_policy are translated "
+                   "but tied by the differential correspondence only"]
     chk.build(translators=["policy"], oracle_name="Mgmt")
     if chk.replay_file:
         return mgmt.replay_case(chk, spec_all)
